@@ -84,6 +84,8 @@ def mk(kind, *args):
       return a[0]
     if ints[1] is not None and 0 <= ints[1] <= 4096:
       return a[0] * (1 << ints[1])
+    if ints[0] is not None:
+      return mk("pow", Poly.const(2), a[1]) * ints[0]        # c << e  ==  c * 2**e : one normal form for both spellings
   if kind == "fdiv":
     if ints[1] == 1:
       return a[0]
